@@ -388,4 +388,716 @@ theorem combine_eq (src dst : Nat) (cores nonCores : List Seg) (hne : src ≠ ds
     rw [List.all_eq_true]; intro x _; exact weightsOk_all x
   simp only [hall, Bool.not_true, Bool.false_eq_true, if_false, hps]
 
+/-! ## 4. where offered paths come from -/
+
+theorem mem_insertDedup {l : List Path} {p x : Path} (h : x ∈ insertDedup l p) : x ∈ l ∨ x = p := by
+  induction l with
+  | nil => simp [insertDedup] at h; exact Or.inr h
+  | cons q qs ih =>
+    unfold insertDedup at h
+    split at h
+    · split at h
+      · rcases List.mem_cons.mp h with h | h
+        · exact Or.inr h
+        · exact Or.inl (List.mem_cons_of_mem _ h)
+      · exact Or.inl h
+    · rcases List.mem_cons.mp h with h | h
+      · exact Or.inl (h ▸ List.mem_cons_self)
+      · rcases ih h with h | h
+        · exact Or.inl (List.mem_cons_of_mem _ h)
+        · exact Or.inr h
+
+theorem mem_foldl_insertDedup : ∀ (ps acc : List Path) (x : Path),
+    x ∈ ps.foldl insertDedup acc → x ∈ acc ∨ x ∈ ps := by
+  intro ps
+  induction ps with
+  | nil => intro acc x h; exact Or.inl h
+  | cons p rest ih =>
+    intro acc x h
+    simp only [List.foldl_cons] at h
+    rcases ih _ _ h with h | h
+    · rcases mem_insertDedup h with h | h
+      · exact Or.inl h
+      · exact Or.inr (h ▸ List.mem_cons_self)
+    · exact Or.inr (List.mem_cons_of_mem _ h)
+
+theorem mem_filterDuplicates {ps : List Path} {x : Path} (h : x ∈ filterDuplicates ps) : x ∈ ps := by
+  rcases mem_foldl_insertDedup ps [] x h with h | h
+  · simp at h
+  · exact h
+
+theorem mem_pathsOf : ∀ (l : List Sol) (ps : List Path), pathsOf l = .ok ps →
+    ∀ p ∈ ps, ∃ s ∈ l, solPath s = .path p := by
+  intro l
+  induction l with
+  | nil => intro ps h p hp; simp [pathsOf] at h; subst h; simp at hp
+  | cons s rest ih =>
+    intro ps h p hp
+    unfold pathsOf at h
+    cases hs : solPath s with
+    | panic st => simp [hs] at h
+    | dropped =>
+      simp only [hs] at h
+      rcases ih ps h p hp with ⟨t, ht, htp⟩
+      exact ⟨t, List.mem_cons_of_mem _ ht, htp⟩
+    | path q =>
+      simp only [hs] at h
+      cases hr : pathsOf rest with
+      | error st => simp [hr] at h
+      | ok qs =>
+        simp only [hr] at h
+        injection h with h
+        subst h
+        rcases List.mem_cons.mp hp with hp | hp
+        · exact ⟨s, List.mem_cons_self, hp ▸ hs⟩
+        · rcases ih qs hr p hp with ⟨t, ht, htp⟩
+          exact ⟨t, List.mem_cons_of_mem _ ht, htp⟩
+
+/-- every offered path is the `PathSolution::path` of a candidate solution and passed the loop filter -/
+theorem offered_from_candidate {src dst : Nat} {cores nonCores : List Seg} {out : List Path}
+    (h : combine src dst cores nonCores = .ok out) {p : Path} (hp : p ∈ out) :
+    src ≠ dst ∧ hasLoops p = false ∧
+    ∃ s ∈ candidates (graphOf (inputSegs cores nonCores)) src dst, solPath s = .path p := by
+  by_cases hne : src = dst
+  · simp [combine, hne] at h; subst h; simp at hp
+  · rcases combine_eq src dst cores nonCores hne with ⟨ps, hps, hc⟩
+    rw [hc] at h
+    injection h with h
+    subst h
+    have h1 := mem_filterDuplicates hp
+    rcases List.mem_filter.mp h1 with ⟨h2, h3⟩
+    rcases mem_pathsOf _ _ hps p h2 with ⟨s, hs, hsp⟩
+    exact ⟨hne, by simpa using h3, s, mem_sortedCandidates.mp hs, hsp⟩
+
+/-! ## 5. what `PathSolution::path` guarantees about a path it returns -/
+
+/-- decomposition of a successful `solPath` -/
+theorem solPath_path {s : Sol} {p : Path} (h : solPath s = .path p) :
+    ∃ mtu ifs segs expiry f l, s.edges ≠ [] ∧ edgeParts s.edges MTU_INIT 0 = .ok (mtu, ifs, segs) ∧
+      pathExpiry segs = .ok expiry ∧ encodeOk segs = true ∧ viewOk segs = true ∧
+      ifs.head? = some f ∧ ifs.getLast? = some l ∧ p = ⟨f.1, l.1, segs, mtu, expiry, ifs⟩ := by
+  unfold solPath at h
+  split at h
+  · simp at h
+  · rename_i hne
+    split at h
+    · simp at h
+    · rename_i mtu ifs segs hep
+      split at h
+      · simp at h
+      · rename_i expiry hex
+        split at h
+        · simp at h
+        · rename_i henc
+          split at h
+          · simp at h
+          · rename_i hview
+            split at h
+            · rename_i f l hf hl
+              injection h with h
+              exact ⟨mtu, ifs, segs, expiry, f, l, by simpa using hne, hep, hex, by simpa using henc,
+                by simpa using hview, hf, hl, h.symm⟩
+            · simp at h
+
+/-- interfaces pushed by the walk have non-zero ids that are interface ids of the collected hop fields -/
+theorem walk_ifs (sc : Nat) (peer : Option Nat) : ∀ (l : List (AsE × Nat)) (mtu m : Nat)
+    (ifs : List (Nat × Nat)) (hops : List HopF), walk sc peer l mtu = .ok (m, ifs, hops) →
+    ∀ i ∈ ifs, i.2 ≠ 0 ∧ ∃ h ∈ hops, h.ingress = i.2 ∨ h.egress = i.2 := by
+  intro l
+  induction l with
+  | nil =>
+    intro mtu m ifs hops h i hi
+    simp [walk] at h
+    rcases h with ⟨_, rfl, _⟩
+    simp at hi
+  | cons x rest ih =>
+    intro mtu m ifs hops h i hi
+    unfold walk at h
+    split at h
+    · simp at h
+    · rename_i hf m1 _
+      split at h
+      · simp at h
+      · rename_i m' ifs' hops' hr
+        injection h with h
+        simp only [Prod.mk.injEq] at h
+        rcases h with ⟨_, rfl, rfl⟩
+        rcases List.mem_append.mp hi with hi | hi
+        · unfold hopIfs at hi
+          rcases List.mem_append.mp hi with hi | hi
+          · by_cases hz : hf.egress ≠ 0
+            · rw [if_pos hz] at hi; simp at hi; subst hi
+              exact ⟨hz, hf, List.mem_cons_self, Or.inr rfl⟩
+            · rw [if_neg hz] at hi; simp at hi
+          · by_cases hz : hf.ingress ≠ 0 ∧ (¬(x.2 = sc ∧ x.2 ≠ 0) ∨ (x.2 = sc ∧ peer.isSome))
+            · rw [if_pos hz] at hi; simp at hi; subst hi
+              exact ⟨hz.1, hf, List.mem_cons_self, Or.inl rfl⟩
+            · rw [if_neg hz] at hi; simp at hi
+        · rcases ih _ _ _ _ hr i hi with ⟨hz, h', hh, hv⟩
+          exact ⟨hz, h', List.mem_cons_of_mem _ hh, hv⟩
+
+theorem edgePart_ifs {e : GEdge} {mtu m : Nat} {ifs : List (Nat × Nat)} {ps : PSeg}
+    (h : edgePart e mtu = .ok (m, ifs, ps)) :
+    ∀ i ∈ ifs, i.2 ≠ 0 ∧ ∃ h ∈ ps.hops, h.ingress = i.2 ∨ h.egress = i.2 := by
+  unfold edgePart at h
+  split at h
+  · simp at h
+  · split at h
+    · simp at h
+    · rename_i m0 ifs0 hops0 hw
+      split at h
+      · simp at h
+      · rename_i cd _
+        split at h
+        · simp at h
+        · injection h with h
+          simp only [Prod.mk.injEq] at h
+          rcases h with ⟨_, rfl, rfl⟩
+          intro i hi
+          have hi' : i ∈ ifs0 := by
+            split at hi
+            · exact List.mem_reverse.mp hi
+            · exact hi
+          rcases walk_ifs _ _ _ _ _ _ _ hw i hi' with ⟨hz, h', hh, hv⟩
+          refine ⟨hz, h', ?_, hv⟩
+          simp only
+          split
+          · exact List.mem_reverse.mpr hh
+          · exact hh
+
+theorem edgeParts_ifs : ∀ (es : List GEdge) (mtu n m : Nat) (ifs : List (Nat × Nat)) (segs : List PSeg),
+    edgeParts es mtu n = .ok (m, ifs, segs) →
+    ∀ i ∈ ifs, i.2 ≠ 0 ∧ ∃ sg ∈ segs, ∃ h ∈ sg.hops, h.ingress = i.2 ∨ h.egress = i.2 := by
+  intro es
+  induction es with
+  | nil =>
+    intro mtu n m ifs segs h i hi
+    simp [edgeParts] at h
+    rcases h with ⟨_, rfl, _⟩
+    simp at hi
+  | cons e rest ih =>
+    intro mtu n m ifs segs h i hi
+    unfold edgeParts at h
+    split at h
+    · simp at h
+    · rename_i m1 ifs1 ps hep
+      split at h
+      · simp at h
+      · split at h
+        · simp at h
+        · rename_i m2 ifs2 pss hr
+          injection h with h
+          simp only [Prod.mk.injEq] at h
+          rcases h with ⟨_, rfl, rfl⟩
+          rcases List.mem_append.mp hi with hi | hi
+          · rcases edgePart_ifs hep i hi with ⟨hz, h', hh, hv⟩
+            exact ⟨hz, ps, List.mem_cons_self, h', hh, hv⟩
+          · rcases ih _ _ _ _ _ hr i hi with ⟨hz, sg, hsg, h', hh, hv⟩
+            exact ⟨hz, sg, List.mem_cons_of_mem _ hsg, h', hh, hv⟩
+
+theorem edgeParts_length : ∀ (es : List GEdge) (mtu n m : Nat) (ifs : List (Nat × Nat)) (segs : List PSeg),
+    edgeParts es mtu n = .ok (m, ifs, segs) → segs.length = es.length := by
+  intro es
+  induction es with
+  | nil => intro mtu n m ifs segs h; simp [edgeParts] at h; simp [h.2.2.symm]
+  | cons e rest ih =>
+    intro mtu n m ifs segs h
+    unfold edgeParts at h
+    split at h
+    · simp at h
+    · split at h
+      · simp at h
+      · split at h
+        · simp at h
+        · rename_i m2 ifs2 pss hr
+          injection h with h
+          simp only [Prod.mk.injEq] at h
+          rcases h with ⟨_, _, rfl⟩
+          simp; exact ih _ _ _ _ _ hr
+
+/-! ### expiry -/
+
+theorem minExp_le : ∀ (hs : List HopF) (h : HopF), h ∈ hs → minExp hs ≤ h.exp % 256 := by
+  intro hs
+  cases hs with
+  | nil => intro h hh; simp at hh
+  | cons a as =>
+    intro h hh
+    unfold minExp
+    have gen : ∀ (l : List HopF) (m : Nat), l.foldl (fun m x => min m (x.exp % 256)) m ≤ m ∧
+        ∀ x ∈ l, l.foldl (fun m x => min m (x.exp % 256)) m ≤ x.exp % 256 := by
+      intro l
+      induction l with
+      | nil => intro m; simp
+      | cons b bs ih =>
+        intro m
+        simp only [List.foldl_cons]
+        have h1 := (ih (min m (b.exp % 256))).1
+        have h2 := (ih (min m (b.exp % 256))).2
+        refine ⟨by omega, ?_⟩
+        intro x hx
+        rcases List.mem_cons.mp hx with hx | hx
+        · subst hx; omega
+        · exact h2 x hx
+    rcases List.mem_cons.mp hh with hh | hh
+    · subst hh; exact (gen as _).1
+    · exact (gen as _).2 h hh
+
+theorem minExp_mem : ∀ (hs : List HopF), hs ≠ [] → ∃ h ∈ hs, minExp hs = h.exp % 256 := by
+  intro hs
+  cases hs with
+  | nil => intro h; exact absurd rfl h
+  | cons a as =>
+    intro _
+    unfold minExp
+    have gen : ∀ (l : List HopF) (m : Nat), l.foldl (fun m x => min m (x.exp % 256)) m = m ∨
+        ∃ x ∈ l, l.foldl (fun m x => min m (x.exp % 256)) m = x.exp % 256 := by
+      intro l
+      induction l with
+      | nil => intro m; simp
+      | cons b bs ih =>
+        intro m
+        simp only [List.foldl_cons]
+        rcases ih (min m (b.exp % 256)) with h | ⟨x, hx, h⟩
+        · by_cases hm : m ≤ b.exp % 256
+          · left; rw [h]; omega
+          · right; exact ⟨b, List.mem_cons_self, by rw [h]; omega⟩
+        · right; exact ⟨x, List.mem_cons_of_mem _ hx, h⟩
+    rcases gen as (a.exp % 256) with h | ⟨x, hx, h⟩
+    · exact ⟨a, List.mem_cons_self, h⟩
+    · exact ⟨x, List.mem_cons_of_mem _ hx, h⟩
+
+theorem expSecs_mono {a b : Nat} (h : a % 256 ≤ b % 256) : expSecs a ≤ expSecs b := by
+  unfold expSecs
+  apply Nat.div_le_div_right
+  apply Nat.mul_le_mul_left
+  omega
+
+/-- absolute expiry of one hop field of a data-plane segment, as a router computes it (saturated) -/
+def hopExpiry (s : PSeg) (h : HopF) : Nat := min (s.ts + expSecs h.exp) u32Max
+
+theorem expSecs_mod (e : Nat) : expSecs (e % 256) = expSecs e := by
+  unfold expSecs; simp
+
+theorem foldl_min_le : ∀ (l : List PSeg) (f : PSeg → Nat) (acc : Nat),
+    l.foldl (fun a s => min a (f s)) acc ≤ acc ∧ ∀ s ∈ l, l.foldl (fun a s => min a (f s)) acc ≤ f s := by
+  intro l f
+  induction l with
+  | nil => intro acc; simp
+  | cons b bs ih =>
+    intro acc
+    simp only [List.foldl_cons]
+    have h1 := (ih (min acc (f b))).1
+    have h2 := (ih (min acc (f b))).2
+    refine ⟨by omega, ?_⟩
+    intro x hx
+    rcases List.mem_cons.mp hx with hx | hx
+    · subst hx; omega
+    · exact h2 x hx
+
+theorem foldl_min_mem : ∀ (l : List PSeg) (f : PSeg → Nat) (acc : Nat),
+    l.foldl (fun a s => min a (f s)) acc = acc ∨ ∃ s ∈ l, l.foldl (fun a s => min a (f s)) acc = f s := by
+  intro l f
+  induction l with
+  | nil => intro acc; simp
+  | cons b bs ih =>
+    intro acc
+    simp only [List.foldl_cons]
+    rcases ih (min acc (f b)) with h | ⟨x, hx, h⟩
+    · by_cases hm : acc ≤ f b
+      · left; rw [h]; omega
+      · right; exact ⟨b, List.mem_cons_self, by rw [h]; omega⟩
+    · right; exact ⟨x, List.mem_cons_of_mem _ hx, h⟩
+
+/-- `pathExpiry` is the earliest hop expiry when every segment has a hop field -/
+theorem pathExpiry_spec {segs : List PSeg} {v : Nat} (h : pathExpiry segs = .ok v)
+    (hne : ∀ s ∈ segs, s.hops ≠ []) :
+    (∀ s ∈ segs, ∀ hf ∈ s.hops, v ≤ hopExpiry s hf) ∧
+    (v = u32Max ∨ ∃ s ∈ segs, ∃ hf ∈ s.hops, v = hopExpiry s hf) := by
+  unfold pathExpiry at h
+  split at h
+  · simp at h
+  · split at h
+    · rename_i hany
+      rw [List.any_eq_true] at hany
+      rcases hany with ⟨s, hs, he⟩
+      exact absurd (by simpa using he) (hne s hs)
+    · injection h with h
+      subst h
+      constructor
+      · intro s hs hf hhf
+        have h1 := (foldl_min_le segs (fun s => min (s.ts + expSecs (minExp s.hops)) u32Max) u32Max).2 s hs
+        have h2 := minExp_le s.hops hf hhf
+        have h3 : expSecs (minExp s.hops) ≤ expSecs hf.exp := by
+          rw [← expSecs_mod hf.exp]
+          apply expSecs_mono
+          have : minExp s.hops % 256 ≤ minExp s.hops := Nat.mod_le _ _
+          have : hf.exp % 256 % 256 = hf.exp % 256 := Nat.mod_mod _ _
+          omega
+        unfold hopExpiry
+        omega
+      · rcases foldl_min_mem segs (fun s => min (s.ts + expSecs (minExp s.hops)) u32Max) u32Max with h | ⟨s, hs, h⟩
+        · exact Or.inl h
+        · right
+          rcases minExp_mem s.hops (hne s hs) with ⟨hf, hhf, hm⟩
+          refine ⟨s, hs, hf, hhf, ?_⟩
+          rw [h, hm, expSecs_mod]
+          rfl
+
+theorem encodeOk_hops_ne {segs : List PSeg} (h : encodeOk segs = true) : ∀ s ∈ segs, s.hops ≠ [] := by
+  unfold encodeOk at h
+  simp only [Bool.and_eq_true] at h
+  have hall := h.2
+  rw [List.all_eq_true] at hall
+  intro s hs hnil
+  have := hall s hs
+  simp [hnil] at this
+
+theorem encodeOk_hops_le {segs : List PSeg} (h : encodeOk segs = true) :
+    ∀ s ∈ segs, s.hops.length ≤ MAX_SEGMENT_HOPS := by
+  unfold encodeOk at h
+  simp only [Bool.and_eq_true] at h
+  have hall := h.2
+  rw [List.all_eq_true] at hall
+  intro s hs
+  have := hall s hs
+  simp at this
+  exact this.1
+
+/-! ## 6. size of the search -/
+
+theorem extend_length (g : List GEdge) (s : Sol) : (extend g s).length ≤ g.length := by
+  unfold extend; exact List.length_filterMap_le _ _
+
+theorem extend_nil_of_three {g : List GEdge} {s : Sol} (h : 3 ≤ s.edges.length) : extend g s = [] := by
+  unfold extend
+  rw [List.filterMap_eq_nil_iff]
+  intro e _
+  rw [if_neg]
+  intro hc
+  have := validNext_len hc.2
+  omega
+
+theorem flatMap_length_le {α β : Type} (f : α → List β) (c : α → Nat) : ∀ (l : List α),
+    (∀ x ∈ l, (f x).length ≤ c x) → (l.flatMap f).length ≤ (l.map c).sum := by
+  intro l
+  induction l with
+  | nil => intro _; simp
+  | cons a as ih =>
+    intro h
+    simp only [List.flatMap_cons, List.length_append, List.map_cons, List.sum_cons]
+    have h1 := h a List.mem_cons_self
+    have h2 := ih (fun x hx => h x (List.mem_cons_of_mem _ hx))
+    omega
+
+theorem sum_map_const {α : Type} (c : Nat) : ∀ (l : List α), (l.map fun _ => c).sum = l.length * c := by
+  intro l
+  induction l with
+  | nil => simp
+  | cons a as ih => simp [ih, Nat.succ_mul]; omega
+
+theorem flatMap_extend_length (g : List GEdge) (fr : List Sol) :
+    (fr.flatMap (extend g)).length ≤ fr.length * g.length := by
+  have := flatMap_length_le (extend g) (fun _ => g.length) fr (fun x _ => extend_length g x)
+  rw [sum_map_const] at this
+  exact this
+
+theorem length_filter_partition {α : Type} (p : α → Bool) : ∀ (l : List α),
+    (l.filter p).length + (l.filter fun x => !p x).length = l.length := by
+  intro l
+  induction l with
+  | nil => simp
+  | cons a as ih =>
+    cases hp : p a <;> simp [hp] <;> omega
+
+theorem bfs_nil (g : List GEdge) (dst : Nat) : ∀ fuel, bfs g dst fuel [] = [] := by
+  intro fuel
+  induction fuel with
+  | zero => rfl
+  | succ n ih => simp [bfs, ih]
+
+/-- number of solutions `k` more rounds can produce per queued solution, `E` = number of graph edges -/
+def searchBound (E : Nat) : Nat → Nat
+  | 0 => 0
+  | k + 1 => E * (1 + searchBound E k)
+
+theorem bfs_length (g : List GEdge) (dst : Nat) : ∀ (fuel : Nat) (fr : List Sol) (k : Nat),
+    (∀ s ∈ fr, 3 ≤ s.edges.length + k) →
+    (bfs g dst fuel fr).length ≤ fr.length * searchBound g.length k := by
+  intro fuel
+  induction fuel with
+  | zero => intro fr k _; simp [bfs]
+  | succ n ih =>
+    intro fr k h
+    simp only [bfs]
+    cases k with
+    | zero =>
+      have hnil : fr.flatMap (extend g) = [] := by
+        rw [List.flatMap_eq_nil_iff]
+        intro s hs
+        exact extend_nil_of_three (by have := h s hs; omega)
+      simp [hnil, bfs_nil]
+    | succ k =>
+      have hnew : ∀ s ∈ fr.flatMap (extend g), 3 ≤ s.edges.length + k := by
+        intro s hs
+        rcases List.mem_flatMap.mp hs with ⟨p, hp, hsp⟩
+        rcases mem_extend hsp with ⟨e, _, _, _, rfl⟩
+        have := h p hp
+        simp; omega
+      have h1 := ih ((fr.flatMap (extend g)).filter fun s => !decide (s.cur = .as dst)) k
+        (fun s hs => hnew s (List.mem_filter.mp hs).1)
+      have h2 := length_filter_partition (fun s : Sol => decide (s.cur = .as dst)) (fr.flatMap (extend g))
+      have h3 := flatMap_extend_length g fr
+      simp only [List.length_append]
+      -- done + open * B ≤ (done + open) * (1 + B) ≤ fr * E * (1 + B)
+      generalize hd : ((fr.flatMap (extend g)).filter fun s => decide (s.cur = .as dst)).length = d at *
+      generalize ho : ((fr.flatMap (extend g)).filter fun s => !decide (s.cur = .as dst)).length = o at *
+      generalize hB : searchBound g.length k = B at *
+      generalize hN : (fr.flatMap (extend g)).length = N at *
+      have h4 : d + o * B ≤ N * (1 + B) := by
+        rw [← h2, Nat.add_mul, Nat.mul_add, Nat.mul_add]
+        have : o * B ≤ d * B + o * B := Nat.le_add_left _ _
+        omega
+      have h5 : N * (1 + B) ≤ fr.length * g.length * (1 + B) := Nat.mul_le_mul_right _ h3
+      calc d + (bfs g dst n _).length ≤ d + o * B := by omega
+        _ ≤ N * (1 + B) := h4
+        _ ≤ fr.length * g.length * (1 + B) := h5
+        _ = fr.length * searchBound g.length (k + 1) := by
+            simp only [searchBound, hB, Nat.mul_assoc]
+
+theorem searchBound_three (E : Nat) : searchBound E 3 ≤ (E + 1) ^ 3 := by
+  simp only [searchBound]
+  have h1 : 1 + E * (1 + E * (1 + 0)) ≤ (E + 1) * (E + 1) := by
+    have : (E + 1) * (E + 1) = E * (E + 1) + (E + 1) := by rw [Nat.add_mul]; omega
+    have h2 : E * (1 + E * (1 + 0)) = E * (E + 1) := by
+      simp only [Nat.add_zero, Nat.mul_one]; rw [Nat.add_comm]
+    omega
+  have h3 : E * (1 + E * (1 + E * (1 + 0))) ≤ (E + 1) * ((E + 1) * (E + 1)) :=
+    Nat.mul_le_mul (Nat.le_succ _) h1
+  have h4 : (E + 1) ^ 3 = (E + 1) * ((E + 1) * (E + 1)) := by
+    rw [Nat.pow_succ, Nat.pow_succ, Nat.pow_one, Nat.mul_comm]
+  omega
+
+theorem candidates_length (g : List GEdge) (src dst : Nat) :
+    (candidates g src dst).length ≤ (g.length + 1) ^ 3 := by
+  unfold candidates
+  have := bfs_length g dst bfsRounds [Sol.new (.as src)] 3 (by intro s hs; simp at hs; subst hs; simp [Sol.new])
+  simp at this
+  exact Nat.le_trans this (searchBound_three _)
+
+/-! ### the graph is linear in the input -/
+
+/-- size of a segment: AS entries + peer entries (each counted twice: one edge per direction) -/
+def Seg.size (s : Seg) : Nat := 2 * s.len + 2 * (s.entries.map fun a => a.peers.length).sum
+
+theorem entryInserts_length (s : Seg) (leaf : Nat) (x : AsE × Nat) :
+    (entryInserts s leaf x).length ≤ 2 + 2 * x.1.peers.length := by
+  unfold entryInserts
+  simp only [List.length_append]
+  have h1 : (if x.2 ≠ s.len - 1 then
+      [(Vertex.as leaf, Vertex.as x.1.ia, (⟨numberOfHops s x.2 false, x.2, none⟩ : Edge)),
+       (Vertex.as x.1.ia, Vertex.as leaf, (⟨numberOfHops s x.2 false, x.2, none⟩ : Edge))]
+      else ([] : List Ins)).length ≤ 2 := by split <;> simp
+  have h2 := flatMap_length_le (fun (p : PeerE × Nat) =>
+      [(Vertex.as leaf, Vertex.peering x.1.ia p.1.hop.ingress p.1.peer p.1.peerIf,
+          (⟨numberOfHops s x.2 true, x.2, some p.2⟩ : Edge)),
+       (Vertex.peering p.1.peer p.1.peerIf x.1.ia p.1.hop.ingress, Vertex.as leaf,
+          (⟨numberOfHops s x.2 false, x.2, some p.2⟩ : Edge))]) (fun _ => 2) x.1.peers.zipIdx
+      (fun _ _ => by simp)
+  rw [sum_map_const, List.length_zipIdx] at h2
+  omega
+
+theorem sum_map_zipIdx_reverse (l : List AsE) (f : AsE → Nat) :
+    (l.zipIdx.reverse.map fun x => f x.1).sum = (l.map f).sum := by
+  have h1 : (l.zipIdx.reverse.map fun x => f x.1) = ((l.zipIdx.map Prod.fst).map f).reverse := by
+    rw [List.map_map, List.map_reverse]; rfl
+  rw [h1, List.zipIdx_map_fst, List.sum_reverse]
+
+theorem inserts_length (s : InSeg) : (inserts s).length ≤ s.seg.size := by
+  unfold inserts Seg.size
+  split
+  · unfold coreInserts
+    split
+    · rename_i f l hf hl
+      have := firstIa_some hf
+      simp; omega
+    · simp
+  · unfold nonCoreInserts
+    split
+    · simp
+    · rename_i leaf _
+      have := flatMap_length_le (entryInserts s.seg leaf) (fun x => 2 + 2 * x.1.peers.length)
+        s.seg.entries.zipIdx.reverse (fun x _ => entryInserts_length s.seg leaf x)
+      rw [sum_map_zipIdx_reverse s.seg.entries (fun a => 2 + 2 * a.peers.length)] at this
+      have h2 : (s.seg.entries.map fun a => 2 + 2 * a.peers.length).sum
+          = 2 * s.seg.len + 2 * (s.seg.entries.map fun a => a.peers.length).sum := by
+        unfold Seg.len
+        generalize s.seg.entries = l
+        induction l with
+        | nil => simp
+        | cons a as ih => simp [ih]; omega
+      omega
+
+theorem segEdges_length (s : InSeg) : (segEdges s).length ≤ s.seg.size := by
+  unfold segEdges
+  rw [List.length_map]
+  exact Nat.le_trans (lastWins_length_le _) (inserts_length s)
+
+theorem sum_eraseDups_le (f : InSeg → Nat) : ∀ (n : Nat) (l : List InSeg), l.length ≤ n →
+    (l.eraseDups.map f).sum ≤ (l.map f).sum := by
+  intro n
+  induction n with
+  | zero => intro l h; have : l = [] := List.length_eq_zero_iff.mp (by omega); subst this; simp
+  | succ n ih =>
+    intro l h
+    cases l with
+    | nil => simp
+    | cons a as =>
+      rw [List.eraseDups_cons]
+      simp only [List.map_cons, List.sum_cons]
+      have hlen : (as.filter fun b => !b == a).length ≤ n := by
+        have := List.length_filter_le (fun b => !b == a) as
+        simp at h; omega
+      have h1 := ih (as.filter fun b => !b == a) hlen
+      have h2 : ((as.filter fun b => !b == a).map f).sum ≤ (as.map f).sum := by
+        generalize as = l
+        induction l with
+        | nil => simp
+        | cons b bs ihb =>
+          simp only [List.filter_cons]
+          split <;> simp <;> omega
+      omega
+
+/-- the multigraph has at most `Σ size` directed edges -/
+theorem graphOf_length (segs : List InSeg) :
+    (graphOf segs).length ≤ (segs.map fun s => s.seg.size).sum := by
+  unfold graphOf
+  have := flatMap_length_le segEdges (fun s => s.seg.size) segs.eraseDups (fun x _ => segEdges_length x)
+  exact Nat.le_trans this (sum_eraseDups_le _ _ segs (Nat.le_refl _))
+
+/-! ## 7. edges that occur in no complete solution can be removed from the graph -/
+
+def Sol.allEdges (Q : GEdge → Bool) (s : Sol) : Bool := s.edges.all Q
+
+theorem extend_filter (g : List GEdge) (Q : GEdge → Bool) (s : Sol) :
+    (extend g s).filter (Sol.allEdges Q) = if s.allEdges Q then extend (g.filter Q) s else [] := by
+  unfold extend
+  induction g with
+  | nil => simp
+  | cons e es ih =>
+    simp only [List.filterMap_cons, List.filter_cons]
+    by_cases hc : e.src = s.cur ∧ validNext s.edges e.seg = true
+    · simp only [hc, and_self, if_true, List.filter_cons]
+      have hP : Sol.allEdges Q ⟨s.edges ++ [e], e.dst, s.cost + e.edge.weight⟩ = (s.allEdges Q && Q e) := by
+        simp [Sol.allEdges, List.all_append]
+      rw [hP, ih]
+      cases hs : s.allEdges Q <;> cases hq : Q e <;> simp [hc]
+    · simp only [hc, if_false]
+      rw [ih]
+      cases hs : s.allEdges Q <;> cases hq : Q e <;> simp [hc]
+
+theorem flatMap_extend_filter (g : List GEdge) (Q : GEdge → Bool) (fr : List Sol) :
+    (fr.flatMap (extend g)).filter (Sol.allEdges Q)
+      = (fr.filter (Sol.allEdges Q)).flatMap (extend (g.filter Q)) := by
+  induction fr with
+  | nil => simp
+  | cons s rest ih =>
+    simp only [List.flatMap_cons, List.filter_append, ih, extend_filter, List.filter_cons]
+    cases hs : s.allEdges Q <;> simp
+
+theorem filter_comm' {α : Type} (p q : α → Bool) (l : List α) :
+    (l.filter p).filter q = (l.filter q).filter p := by
+  rw [List.filter_filter, List.filter_filter]
+  congr 1; funext x; exact Bool.and_comm _ _
+
+theorem bfs_filter (g : List GEdge) (Q : GEdge → Bool) (dst : Nat) : ∀ (fuel : Nat) (fr : List Sol),
+    (bfs g dst fuel fr).filter (Sol.allEdges Q)
+      = bfs (g.filter Q) dst fuel (fr.filter (Sol.allEdges Q)) := by
+  intro fuel
+  induction fuel with
+  | zero => intro fr; simp [bfs]
+  | succ n ih =>
+    intro fr
+    simp only [bfs, List.filter_append]
+    rw [ih, filter_comm', filter_comm' _ (Sol.allEdges Q), flatMap_extend_filter]
+
+/-- if every complete candidate over `g` uses only `Q`-edges, the search over `g` and over the
+`Q`-edges alone returns the same list -/
+theorem candidates_filter (g : List GEdge) (Q : GEdge → Bool) (src dst : Nat)
+    (h : ∀ s ∈ candidates g src dst, ∀ e ∈ s.edges, Q e = true) :
+    candidates g src dst = candidates (g.filter Q) src dst := by
+  have h1 := bfs_filter g Q dst bfsRounds [Sol.new (.as src)]
+  have h2 : (candidates g src dst).filter (Sol.allEdges Q) = candidates g src dst := by
+    rw [List.filter_eq_self]
+    intro s hs
+    simp only [Sol.allEdges, List.all_eq_true]
+    exact h s hs
+  unfold candidates at *
+  rw [← h2, h1]
+  have : [Sol.new (Vertex.as src)].filter (Sol.allEdges Q) = [Sol.new (Vertex.as src)] := by
+    simp [Sol.allEdges, Sol.new]
+  rw [this]
+
+theorem eraseDups_filter (p : InSeg → Bool) : ∀ (n : Nat) (l : List InSeg), l.length ≤ n →
+    l.eraseDups.filter p = (l.filter p).eraseDups := by
+  intro n
+  induction n with
+  | zero => intro l h; have : l = [] := List.length_eq_zero_iff.mp (by omega); subst this; simp
+  | succ n ih =>
+    intro l h
+    cases l with
+    | nil => simp
+    | cons a as =>
+      have hlen : (as.filter fun b => !b == a).length ≤ n := by
+        have := List.length_filter_le (fun b => !b == a) as
+        simp at h; omega
+      rw [List.eraseDups_cons]
+      by_cases hp : p a = true
+      · simp only [List.filter_cons, hp, if_true]
+        rw [List.eraseDups_cons, ih _ hlen, filter_comm']
+      · have hp' : p a = false := by simpa using hp
+        simp only [List.filter_cons, hp', Bool.false_eq_true, if_false]
+        rw [ih _ hlen, List.filter_filter]
+        congr 1
+        apply List.filter_congr
+        intro x _
+        by_cases hx : p x = true
+        · have : x ≠ a := by intro e; rw [e] at hx; rw [hx] at hp'; cases hp'
+          simp [hx, this]
+        · simp [hx]
+
+theorem segEdges_filter (good : List InSeg) (s : InSeg) :
+    (segEdges s).filter (fun e => decide (e.seg ∈ good)) = if s ∈ good then segEdges s else [] := by
+  split
+  · rename_i h
+    rw [List.filter_eq_self]
+    intro e he
+    rw [(mem_segEdges he).1]; simpa using h
+  · rename_i h
+    rw [List.filter_eq_nil_iff]
+    intro e he
+    rw [(mem_segEdges he).1]; simpa using h
+
+theorem graphOf_filter (good segs : List InSeg) :
+    (graphOf segs).filter (fun e => decide (e.seg ∈ good))
+      = graphOf (segs.filter fun s => decide (s ∈ good)) := by
+  unfold graphOf
+  rw [List.filter_flatMap, ← eraseDups_filter _ _ segs (Nat.le_refl _)]
+  generalize segs.eraseDups = l
+  induction l with
+  | nil => simp
+  | cons a as ih =>
+    simp only [List.flatMap_cons, List.filter_cons]
+    rw [ih, segEdges_filter]
+    by_cases h : a ∈ good <;> simp [h]
+
+/-- segments that occur in no complete candidate solution do not change the sorted candidate list -/
+theorem sortedCandidates_garbage (src dst : Nat) (segs segs' : List InSeg)
+    (h1 : segs'.filter (fun s => decide (s ∈ segs)) = segs)
+    (h2 : ∀ s ∈ candidates (graphOf segs') src dst, ∀ e ∈ s.edges, e.seg ∈ segs) :
+    sortedCandidates src dst segs' = sortedCandidates src dst segs := by
+  unfold sortedCandidates
+  rw [candidates_filter (graphOf segs') (fun e => decide (e.seg ∈ segs)) src dst
+    (fun s hs e he => by simpa using h2 s hs e he), graphOf_filter, h1]
+
 end ScionVerif.Comb
